@@ -6,6 +6,7 @@ import (
 	"strings"
 
 	"github.com/preslavrachev/gomjml/mjml"
+	"github.com/preslavrachev/gomjml/mjml/components"
 	"github.com/preslavrachev/gomjml/parser"
 )
 
@@ -149,4 +150,43 @@ func runC04Mixed(res *Result, drv *DriverPool, tier string, seed int64) {
 			res.Sample(map[string]string{"kind": "mixed-content", "inner": short(inner, 200), "content": short(got, 200)})
 		}
 	})
+}
+
+// runC04TextFlow: mj-text's way from the element's character data to the inner HTML (buildRawInnerHTML through the verif
+// export) against the Lean Model TextFlow.textInner (driver `textflow`), byte for byte, on valid UTF-8 texts made of every
+// kind of white space, no-break spaces, references, inline markup and void tags
+func runC04TextFlow(res *Result, drv *DriverPool, tier string, seed int64) {
+	pieces := []string{" ", "  ", "\n", "\r\n", "\t", "\n\n  ", "a", "word", "é", " ", "  ", "   ", "&amp;", "&#xA0;", "&nbsp;", "<b>", "</b>", "<br/>", "<br />", " <br> ", "<img src=\"i.png\"  alt=\"a  b\"/>",
+		"<a href=\"u?a=1&amp;b=2\">", "</a>", "日本", " ", " ", "\v", "\f", "x\ty", "<p>\n  para\n</p>", "Â", "Â ", "©", "<!-- c  c -->", "%", "&"}
+	texts := []string{"", " ", "\n\t ", "a", " a ", " ", "   ", "a b", "  a \n\t b<br/>  ", "  a", "a  "}
+	n := 1500
+	if tier == "thorough" {
+		n = 40000
+	}
+	for i := 0; i < n; i++ {
+		r := NewRng(seed, fmt.Sprintf("c04/textflow/%d", i))
+		var sb strings.Builder
+		for j, k := 0, 1+r.Intn(10); j < k; j++ {
+			sb.WriteString(r.Pick(pieces))
+		}
+		texts = append(texts, sb.String())
+	}
+	parallel(8, len(texts), func(i int) {
+		t := texts[i]
+		real := components.VerifTextInner(t)
+		resp, err := drv.Ask("textflow " + hexOrDash(t))
+		res.Case("textflow|"+t, strings.ContainsAny(t, " \n\t\r"))
+		res.mu.Lock()
+		res.Programs++
+		res.DisagreementsChecked++
+		res.mu.Unlock()
+		if err != nil || strings.TrimSpace(resp) != hexOrDash(real) {
+			want, _ := hex.DecodeString(strings.TrimPrefix(strings.TrimSpace(resp), "-"))
+			at := firstDiff(real, string(want))
+			res.Disagree(Violation{Sig: "textflow-model-mismatch", Kind: "input",
+				What:  fmt.Sprintf("mj-text inner HTML differs from the Model at offset %d: …%q… vs Model …%q…", at, around(real, at), around(string(want), at)),
+				Input: map[string]string{"text": t}})
+		}
+	})
+	res.Count(fmt.Sprintf("textflow-texts=%d", len(texts)))
 }
